@@ -21,6 +21,7 @@ RULE = ('exhaustive enumeration: layer type in {Conv1d, Conv2d, Linear} x every 
         'and channel-multiplier layers. '
         'Non-trivial: at least two patterns registered for the type (order can matter); '
         'distinct = (type, ordered pattern tuple, truth assignment, default).')
+RULE += ('  Round 3: every registration order again with one function object shared by two of the patterns.')
 ASSUMPTIONS = ['a "user constraint" is an arbitrary predicate on the layer spec (here: stride == 2)']
 REQUIRED_MONITORS = ['c15.lookup', 'c15.insitu_contract', 'c15.constraint_semantics']
 MIN_NONTRIVIAL = {'quick': 1000, 'thorough': 1000}
